@@ -96,18 +96,33 @@ func (*Reader).Close
     flags assumed
     ensures err != nil ==> ioerr(err)
 
+// the scan from position reaches the end of the valid prefix before it runs out of count or range
+pred scanHitsEnd(f int, position int64, maxPosition int64, maxCount int64) :=
+    recPos(f, recN(f)) <= maxPosition && recN(f) - recIdx(f, position) < maxCount
+
 func (*Reader).Consume
     requires wfFile(r.gfile)
     requires[count] 0 <= maxCount && maxCount <= 1048576
-    requires atRec(r.gfile, position) && atRec(r.gfile, maxPosition) && recIdx(r.gfile, position) <= recIdx(r.gfile, maxPosition)
-    ensures[ok]    err == nil
-    ensures[count] len(ret0) == min(maxCount, int64(recIdx(r.gfile, maxPosition) - recIdx(r.gfile, position) + 1))
-    ensures[run]   forall j :: 0 <= j && j < len(ret0) ==> isRec(ret0[j], r.gfile, recIdx(r.gfile, position) + j)
+    requires atIdx(r.gfile, position)
+    // C14: a scan that runs into damage (bytes after the valid prefix that are not a clean end of file)
+    // fails with a corruption error and returns nothing; every other scan succeeds
+    ensures[damaged] scanHitsEnd(r.gfile, position, maxPosition, maxCount) && !tailClean(r.gfile) ==> is(err, ErrCorrupted) && !is(err, io.EOF) && ret0 == nil
+    ensures[ok]      !(scanHitsEnd(r.gfile, position, maxPosition, maxCount) && !tailClean(r.gfile)) ==> err == nil
+    // the result is the run of records from position, each starting at or below maxPosition, cut only by the count,
+    // the range or the end of the file
+    ensures[run]     err == nil ==> forall j :: 0 <= j && j < len(ret0) ==> isRec(ret0[j], r.gfile, recIdx(r.gfile, position) + j)
+    ensures[below]   err == nil ==> forall j :: 0 <= j && j < len(ret0) ==> recPos(r.gfile, recIdx(r.gfile, position) + j) <= maxPosition
+    ensures[stop]    err == nil ==> len(ret0) == maxCount || recIdx(r.gfile, position) + len(ret0) == recN(r.gfile)
+                                    || recPos(r.gfile, recIdx(r.gfile, position) + len(ret0)) > maxPosition
+    // for a range given by two record starts (what the index provides): exactly that many
+    ensures[count]   atRec(r.gfile, position) && atRec(r.gfile, maxPosition) && recIdx(r.gfile, position) <= recIdx(r.gfile, maxPosition) ==>
+                         err == nil && len(ret0) == min(maxCount, int64(recIdx(r.gfile, maxPosition) - recIdx(r.gfile, position) + 1))
     loop 1
       invariant[i]     0 <= i && i <= maxCount && len(msgs) == maxCount
-      invariant[chain] i <= recIdx(r.gfile, maxPosition) - recIdx(r.gfile, old(position)) + 1
-      invariant[pos]   position == recPos(r.gfile, recIdx(r.gfile, old(position)) + i)
+      invariant[chain] atRec(r.gfile, maxPosition) && recIdx(r.gfile, old(position)) <= recIdx(r.gfile, maxPosition) ==> i <= recIdx(r.gfile, maxPosition) - recIdx(r.gfile, old(position)) + 1
+      invariant[pos]   position == recPos(r.gfile, recIdx(r.gfile, old(position)) + i) && recIdx(r.gfile, old(position)) + i <= recN(r.gfile)
       invariant[run]   forall j :: 0 <= j && j < i ==> isRec(msgs[j], r.gfile, recIdx(r.gfile, old(position)) + j)
+      invariant[below] forall j :: 0 <= j && j < i ==> recPos(r.gfile, recIdx(r.gfile, old(position)) + j) <= maxPosition
       decreases maxCount - i
 
 func (*Reader).Get
@@ -223,6 +238,9 @@ pred rdB(r *Reader) := ite(r.ra != nil, mData[r.ra], fData[r.r])
 pred rdL(r *Reader) := ite(r.ra != nil, mSize[r.ra], fSize[r.r])
 
 func (*Reader).readV2
+    flags overflow
+    // machine bound: file sizes stay below 2^62 (positions are int64)
+    requires[size] rdL(r) <= 4611686018427387904
     requires position >= 0 && isBytes(rdB(r)) && rdL(r) >= 0 && (r.ra != nil || r.r != nil)
     requires[zeroed] msg.Key == nil && msg.Value == nil
     split[mmap] r.ra != nil
@@ -262,6 +280,9 @@ pred validV1(b map[int]int, n int, p int) :=
     && be32(b, p + 24) == crcOf(range(b, p + 28, ksV1(b, p) + vsV1(b, p)))
 
 func (*Reader).readV1
+    flags overflow
+    // machine bound: file sizes stay below 2^62 (positions are int64)
+    requires[size] rdL(r) <= 4611686018427387904
     requires position >= 0 && isBytes(rdB(r)) && rdL(r) >= 0 && (r.ra != nil || r.r != nil)
     requires[zeroed] msg.Key == nil && msg.Value == nil
     split[mmap] r.ra != nil
